@@ -514,6 +514,8 @@ pub struct DmlCfg {
     pub inline_fk: bool,
     /// allow ON DELETE/UPDATE SET NULL on a NOT NULL child column (the action can then only fail)
     pub setnull_on_notnull: bool,
+    /// allow two FOREIGN KEYs of one table to reference the same parent
+    pub two_fks_same_parent: bool,
     /// generate REPLACE INTO (checked by invariants only)
     pub replace: bool,
     /// generate INSERT .. ON DUPLICATE KEY UPDATE (checked by invariants only)
@@ -570,14 +572,22 @@ pub fn gen_specs(t: &mut Tape, c: &DmlCfg) -> Vec<TSpec> {
             let lit = gen_v(t, &s.cols[k].1, false);
             s.checks.push(APred::Cmp(AExpr::Col(k), *t.pick(&[BinOp::Ge, BinOp::Ne, BinOp::Lt, BinOp::Le]), AExpr::Lit(lit)));
         }
-        if c.fks && (ti > 0 || c.self_fk) && t.chance(3, 4) {
+        // up to two foreign keys per table (the second one on another column)
+        for fk_round in 0..2 {
+        if fk_round == 1 && (s.fks.is_empty() || !t.chance(1, 3)) {
+            break;
+        }
+        if c.fks && (ti > 0 || c.self_fk) && (fk_round == 1 || t.chance(3, 4)) {
             // reference the key column of an earlier table (or of this table)
             let parent = if ti > 0 && !(c.self_fk && t.chance(1, 5)) { t.below(ti) } else { ti };
+            if !c.two_fks_same_parent && s.fks.iter().any(|f| f.parent == parent) {
+                break;
+            }
             let (pspec_cols, ppk): (Vec<(String, ColTy)>, Vec<usize>) = if parent == ti { (s.cols.clone(), s.pk.clone()) } else { (specs[parent].cols.clone(), specs[parent].pk.clone()) };
             // parent column must be the single-column primary key (the engine requires a key)
             if ppk.len() == 1 {
                 let pcol = ppk[0];
-                let cands: Vec<usize> = (1..ncols).filter(|&k| s.cols[k].1 == pspec_cols[pcol].1 && !s.pk.contains(&k)).collect();
+                let cands: Vec<usize> = (1..ncols).filter(|&k| s.cols[k].1 == pspec_cols[pcol].1 && !s.pk.contains(&k) && !s.fks.iter().any(|f| f.col == k)).collect();
                 if !cands.is_empty() {
                     let col = cands[t.below(cands.len())];
                     let act = |t: &mut Tape| *t.pick(&[FkAction::Cascade, FkAction::SetNull, FkAction::NoAction, FkAction::NoAction]);
@@ -589,6 +599,7 @@ pub fn gen_specs(t: &mut Tape, c: &DmlCfg) -> Vec<TSpec> {
                     s.fks.push(Fk { col, parent, pcol, on_delete: od, on_update: ou, inline });
                 }
             }
+        }
         }
         if c.user_indexes {
             let n = t.range(0, 2) as usize;
